@@ -129,7 +129,11 @@ func polSummary(p policy.Policy) string {
 	return fmt.Sprintf("allow=%s susp=%s acc=%s min=%d res=%d new=%s", lst(p.PeerAllowlist), lst(p.SuspiciousPeerList), b01(p.AcceptAllPeers), p.MinSwapAmountMsat, p.ReserveOnchainMsat, b01(p.AllowNewSwaps))
 }
 
-func polSame(a, b policy.Policy) bool { return polSummary(a) == polSummary(b) }
+// polSame: equal settings and equal lists — element by element: the summary prints a list holding one empty string
+// (`allowlisted_peers=` with no value) like an empty list
+func polSame(a, b policy.Policy) bool {
+	return polSummary(a) == polSummary(b) && len(a.PeerAllowlist) == len(b.PeerAllowlist) && len(a.SuspiciousPeerList) == len(b.SuspiciousPeerList)
+}
 
 type polRun struct {
 	dir, path string
@@ -401,6 +405,13 @@ func init() {
 					if valid {
 						report(name+"/valid-operation-fails", "a valid operation on a loadable file fails with "+cls)
 					}
+					continue
+				}
+				// "invalid pubkeys ... are rejected without changing anything": the four list operations take a node id,
+				// 66 lower-case hex digits (the spelling node ids arrive in and are compared in)
+				if (name == "addAllow" || name == "addSusp" || name == "removeAllow" || name == "removeSusp") && !validPk {
+					res.addFinding("C25/"+name+"/invalid-pubkey-accepted", "a list operation with a malformed pubkey returned nil",
+						map[string]interface{}{"pubkey": arg, "file_before_op": beforeFile, "ops": append([]polStep{}, steps...), "file_after": pr.fileContent()})
 					continue
 				}
 				// the textual edit itself: an added option is a complete line of its own at the end
